@@ -3,7 +3,7 @@
 set -e
 cd "$(dirname "$0")"
 export GOFLAGS=-mod=mod GOPROXY=off GOSUMDB=off GOTOOLCHAIN=local
-(cd coq && coq_makefile -f _CoqProject -o Makefile >/dev/null && timeout 7200 make -j16)
-cp /repo/go.sum harness/go.sum 2>/dev/null || true
-(cd harness && go build ./internal/... >/dev/null 2>&1 || true)
+./coqbuild
+
+
 echo setup-ok
